@@ -174,8 +174,10 @@ def gate_sites(world, objs, sites, closes):
                 d[fname] = mk3(orig)
 
 
-def resolver(calls=None):
+def resolver(calls=None, on_call=None):
     def resolve(src, info, **args):
+        if on_call is not None:
+            on_call(info)
         v = src.get(info.field_name) if isinstance(src, dict) else None
         if callable(v):
             v = v(info.path.as_list(), args)
@@ -189,8 +191,10 @@ class Obs:
 
 
 def run(c, schema, doc, sites, fault, early, *, early_bound=True, variables=None, stop=None, abort_reason=None, max_pull_after_stop=12,
-        settle_after=False, data=None):
-    """stop: None or one of 'aclose' | 'abort' - the explorer may insert it at any choice point (cost 0; exactly one)."""
+        settle_after=False, data=None, sync_stops=False, step_stops=False):
+    """stop: None or one of 'aclose' | 'abort' - the explorer may insert it at any choice point (cost 0; exactly one).
+    sync_stops (abort only): the abort may also fire before the executor is called and from inside any resolver call, i.e. during the
+    synchronous stretches of the execution where the loop offers no choice point."""
     from graphql import ExecutionResult
     from graphql.execution import AbortedGraphQLExecutionError, ExecutionHooks, experimental_execute_incrementally
     from graphql.pyutils import AbortController
@@ -231,12 +235,47 @@ def run(c, schema, doc, sites, fault, early, *, early_bound=True, variables=None
             except RuntimeError:
                 return None
 
+        def on_call(info):
+            if obs.stopped:
+                return
+            if c.choose(2, "abort_in_resolver", cost=0):
+                obs.stopped = True
+                obs.stop_label = "abort_in_resolver"
+                obs.trace.append("STOP:abort(in resolver %s)" % ".".join(map(str, info.path.as_list())))
+                ctl.abort(abort_reason)
+
         async def main():
             kw = {}
             if ctl is not None:
                 kw["abort_signal"] = ctl.signal
-            r = experimental_execute_incrementally(schema, doc, root, variable_values=variables, field_resolver=resolver(),
-                                                   enable_early_execution=early, hooks=ExecutionHooks(async_work_finished=on_finished), **kw)
+            if sync_stops and stop == "abort" and c.choose(2, "abort_before_execute", cost=0):
+                obs.stopped = True
+                obs.stop_label = "abort_before_execute"
+                obs.trace.append("STOP:abort(before execute)")
+                ctl.abort(abort_reason)
+            r = None
+            try:
+                r = experimental_execute_incrementally(schema, doc, root, variable_values=variables,
+                                                       field_resolver=resolver(on_call=on_call if (sync_stops and stop == "abort") else None),
+                                                       enable_early_execution=early, hooks=ExecutionHooks(async_work_finished=on_finished), **kw)
+            except AbortedGraphQLExecutionError as aborted:
+                # raised synchronously: the abort fired during the synchronous part of the execution
+                obs.trace.append("caller:aborted(sync)")
+                obs.exc = aborted
+                ar = aborted.aborted_result
+                if hasattr(ar, "__await__"):
+                    try:
+                        ar = await ar
+                    except Exception:  # noqa: BLE001
+                        ar = None
+                sub = getattr(ar, "subsequent_results", None)
+                if sub is not None:
+                    try:
+                        await sub.__anext__()
+                    except (Exception, StopAsyncIteration):  # noqa: BLE001
+                        pass
+                    await sub.aclose()
+                raise
             if hasattr(r, "__await__"):
                 try:
                     r = await r
@@ -312,6 +351,10 @@ def run(c, schema, doc, sites, fault, early, *, early_bound=True, variables=None
                         if k:
                             obs.trace.append("early:" + og[k - 1].label)
                             og[k - 1].release()
+                    if step_stops and not obs.stopped and stop == "abort" and c.choose(2, "abort_between_handles", cost=0):
+                        # the signal fires from some other callback of the application between two handles of this execution
+                        do_stop("abort", og)
+                        obs.stop_label = "abort_between_handles"
                     w.loop.step()
                 if main_task.done():
                     break
